@@ -15,6 +15,7 @@ import (
 	"verif/mc/core"
 	"verif/mc/dump"
 	"verif/mc/gen/corpus"
+	"verif/mc/gen/scale"
 )
 
 type Input struct {
@@ -205,13 +206,47 @@ func shards(tier string) []string {
 	for i := 0; i < nShards; i++ {
 		out = append(out, fmt.Sprintf("corpus/%d", i))
 	}
+	for i := range hugeSizes {
+		out = append(out, fmt.Sprintf("huge/%d", i))
+	}
 	return out
 }
 
+// module sets with thousands of statements (n leaves in each of five places): around the powers of
+// two at which a table, cache or buffer bound might sit. Too large for the all-pairs checks that
+// share the corpus.
+var hugeSizes = []int{341, 683, 1365, 2047, 2048, 2049, 2730, 2731, 3276, 3277, 4095, 4096, 4097, 5461, 6553, 8192, 13107, 16385}
+
 func run(c *core.Ctx) {
 	var shard int
+	if _, err := fmt.Sscanf(c.Shard, "huge/%d", &shard); err == nil {
+		n := hugeSizes[shard]
+		s := corpus.Set{Family: "scale", Desc: fmt.Sprintf("scale wide n=%d", n), Files: scale.Wide(n)}
+		caseNo, run := c.Begin()
+		in := Input{s.Family, s.Desc, nil} // the files are rebuilt from the size on replay
+		if c.Skip(caseNo, run, in) {
+			return
+		}
+		c.Exec()
+		c.Edge(2)
+		c.StateN(1)
+		f, clean, _ := check(s.Files)
+		if !clean && f == nil {
+			c.Fail(caseNo, nil, "scale-set-not-clean", in, "processes without error", "errors")
+			return
+		}
+		c.Validate()
+		c.NontrivialN(1)
+		if f != nil {
+			c.Outcome("FAIL:" + f.fp)
+			c.Fail(caseNo, nil, f.fp, in, f.exp, f.obs)
+			return
+		}
+		c.Outcome("proper-trees:huge")
+		return
+	}
 	fmt.Sscanf(c.Shard, "corpus/%d", &shard)
-	c.Res.Bound = "every program of the USES, AUG and CFG families and of the conflict library (deviations of every kind, two deviating or augmenting modules, revisions, submodules, errors) in two load orders; invariants evaluated on every node of every module and submodule tree of every set that processes without error, before and after path lookups into rpc input/output"
+	c.Res.Bound = "every program of the USES, AUG and CFG families and of the conflict library (deviations of every kind, two deviating or augmenting modules, revisions, submodules, errors) and the scale sets (deep nesting to 40 (70), wide containers, long chains, many imports and includes at every size up to a bound and around the powers of two; 18 sets of 1 700 to 82 000 statements) in two load orders; invariants evaluated on every node of every module and submodule tree of every set that processes without error, before and after path lookups into rpc input/output"
 	stride := 1
 	n := 0
 	corpus.Each(c.Tier, shard, nShards, stride, func(s corpus.Set) {
@@ -252,6 +287,12 @@ func replay(tier string, raw json.RawMessage) (bool, string, string) {
 	var in Input
 	if err := json.Unmarshal(raw, &in); err != nil {
 		return false, "", err.Error()
+	}
+	if in.Files == nil {
+		var n int
+		if _, err := fmt.Sscanf(in.Desc, "scale wide n=%d", &n); err == nil {
+			in.Files = scale.Wide(n)
+		}
 	}
 	f, _, _ := check(in.Files)
 	if f == nil {
